@@ -3,7 +3,7 @@
    [lname], compiled policy [p], SP [sp] with its metadata view [md], and
    identity (ordered list of (name, values)); proofs are by induction over
    those lists (Proofs/Policy_lemmas.v). *)
-From PV Require Import Lib.Base Gen.EntityCat Model.Policy Proofs.Policy_lemmas Model.PolicyRx Proofs.PolicyRx_lemmas.
+From PV Require Import Lib.Base Gen.EntityCat Model.Policy Proofs.Policy_lemmas Model.PolicyRx Proofs.PolicyRx_lemmas Model.PolicyVal Proofs.PolicyVal_lemmas.
 Open Scope N_scope.
 
 (* (1) what Assertion.apply_policy leaves in the assertion dict *)
@@ -324,3 +324,89 @@ Example C07_support_only_is_no_category :
                         (s2l "urn:x", [s2l "c"])] = [].
 Proof. vm_compute. reflexivity. Qed.
 Print Assumptions C07_support_only_is_no_category.
+
+(* ---- identity VALUES that are not text (Model/PolicyVal.v): int, bool, float, bytes, None, nested list, tuple, dict.
+   Values are a sum type text | other kind; re.match on anything but a text raises TypeError. *)
+
+(* the list filter, for EVERY expression list and EVERY value list - IFF: what one restriction list lets through are
+   exactly the TEXTS of the list that a single expression matches; a value of another kind is never among them *)
+Theorem C07_value_list_releases_matched_texts_only : forall matches rxs vals out,
+  filter_values_v matches rxs vals = Ok out ->
+  forall v, In v out <-> In v vals /\ exists s rx, v = VText s /\ In rx rxs /\ matches rx s = true.
+Proof. exact filter_values_v_ok. Qed.
+Print Assumptions C07_value_list_releases_matched_texts_only.
+
+(* what the code does today: any non-text value under a non-empty expression list and the call raises (no response) *)
+Theorem C07_non_text_value_raises : forall matches rx rxs vals p,
+  In (VOther p) vals -> filter_values_v matches (rx :: rxs) vals = Err TypeError.
+Proof. exact filter_values_v_other. Qed.
+Print Assumptions C07_non_text_value_raises.
+
+Theorem C07_value_list_only_error_is_non_text : forall matches rxs vals e,
+  filter_values_v matches rxs vals = Err e -> e = TypeError /\ exists p, In (VOther p) vals.
+Proof. exact filter_values_v_err. Qed.
+Print Assumptions C07_value_list_only_error_is_non_text.
+
+(* Policy.filter with typed values answers what the text model answers under a matcher that lets no carried non-text
+   value through - so every theorem above applies to it *)
+Theorem C07_typed_policy_filter : forall matches lname p a sp md rq op out,
+  pfilter_t matches lname p a sp md rq op = Ok out ->
+  permitted_for (vmatches matches) lname p sp md rq op a out.
+Proof. intros matches lname p a sp md rq op out H. apply pfilter_permitted. apply pfilter_t_ok. exact H. Qed.
+Print Assumptions C07_typed_policy_filter.
+
+(* FULL, every outcome of create_authn_response / setup_assertion (both best_effort values) / create_attribute_response
+   for EVERY typed identity: an exception, an error response, or an assertion that is permitted (all four clauses) and in
+   which every value of an attribute restricted by an expression list IS a text value of the identity matched by a single
+   expression of that list - whatever else (of whatever kind) the identity holds *)
+Theorem C07_non_text_every_outcome : forall matches lname p (vid : vava) sp md b,
+  let o := setup_assertion_t matches lname p (enc_ident vid) sp md b in
+  outcome_ok (vmatches matches) lname p sp md (enc_ident vid) o /\ outcome_texts_only matches p sp vid o.
+Proof.
+  intros matches lname p vid sp md b o.
+  pose proof (setup_assertion_t_every_outcome matches lname p (enc_ident vid) sp md b) as H.
+  split; [exact H|eapply outcome_ok_texts_only; exact H].
+Qed.
+Print Assumptions C07_non_text_every_outcome.
+
+Theorem C07_non_text_authn_response : forall matches lname p (vid : vava) sp md a,
+  authn_response_t matches lname p (enc_ident vid) sp md = Asserted a ->
+  forall r, get_attribute_restrictions p sp = Ok (Some r) -> r <> [] ->
+    forall n vs rxs, In (n, vs) a -> lookup (lower n) r = Some (Some rxs) ->
+      forall s, In s vs -> exists ivs rx, In (n, ivs) vid /\ In (VText s) ivs /\ In rx rxs /\ matches rx s = true.
+Proof.
+  intros matches lname p vid sp md a H.
+  pose proof (C07_non_text_every_outcome matches lname p vid sp md true) as [_ Ht].
+  unfold authn_response_t in H. rewrite H in Ht. exact Ht.
+Qed.
+Print Assumptions C07_non_text_authn_response.
+
+Theorem C07_non_text_attribute_response : forall matches lname p (vid : vava) sp md,
+  let o := attribute_response_t matches lname (Some p) (enc_ident vid) sp md in
+  outcome_ok (vmatches matches) lname p sp md (enc_ident vid) o /\ outcome_texts_only matches p sp vid o.
+Proof.
+  intros matches lname p vid sp md o.
+  pose proof (attribute_response_t_every_outcome matches lname p (enc_ident vid) sp md) as H.
+  split; [exact H|eapply outcome_ok_texts_only; exact H].
+Qed.
+Print Assumptions C07_non_text_attribute_response.
+
+(* the mistake the property excludes, refuted: a filter that judges str(value) and keeps the value lets the int 5 through
+   the list [\d+$] - the code raises on the same input *)
+Theorem C07_str_matching_filter_refuted :
+  exists matches rxs vals v, In v (filter_values_str matches rxs vals) /\ (forall s, v <> VText s) /\
+                             filter_values_v matches rxs vals = Err TypeError.
+Proof.
+  exists witness_matches, [witness_rx], [VText (s2l "x"); VOther (s2l "5")], (VOther (s2l "5")).
+  destruct str_of_is_not_the_value as [H1 H2]. split; [exact H1|]. split; [intros s; discriminate|exact H2].
+Qed.
+Print Assumptions C07_str_matching_filter_refuted.
+
+(* non-vacuity: a typed identity with a text and an int under an expression list and a text-only one *)
+Example C07_non_text_hypotheses_satisfiable :
+  filter_values_v witness_matches [witness_rx] [VText (s2l "5"); VText (s2l "x")] = Ok [VText (s2l "5")] /\
+  favs_t witness_matches (enc_ident [(s2l "age", [VText (s2l "5"); VOther (s2l "5")])]) (Some [(s2l "age", Some [witness_rx])]) = Err TypeError /\
+  favs_t witness_matches (enc_ident [(s2l "age", [VText (s2l "5"); VText (s2l "x")]); (s2l "o", [VOther (s2l "5")])])
+         (Some [(s2l "age", Some [witness_rx]); (s2l "o", None)]) = Ok [(s2l "age", [s2l "5"]); (s2l "o", [SENT :: s2l "5"])].
+Proof. vm_compute. repeat split. Qed.
+Print Assumptions C07_non_text_hypotheses_satisfiable.
